@@ -98,4 +98,7 @@ RECURSIVE RLeafIds(_)
 RLeafIds(r) == IF IsLeafR(r) THEN {r.id} ELSE UNION { RLeafIds(r.a[i]) : i \in DOMAIN r.a }
 RECURSIVE RBool(_)
 RBool(r) == IF IsLeafR(r) THEN (r.lo >= 0 /\ r.hi <= 1) ELSE \A i \in DOMAIN r.a : RBool(r.a[i])
+\* the ids the caller gave (every other compound id is generated by the library)
+RECURSIVE RExplicit(_)
+RExplicit(r) == IF IsLeafR(r) THEN {} ELSE (IF r.id = "" THEN {} ELSE {r.id}) \cup UNION { RExplicit(r.a[i]) : i \in DOMAIN r.a }
 =============================================================================
